@@ -439,7 +439,7 @@ func (c *panicClient) dischargeSlice(e *Engine, st *State, x *ast.SliceExpr) (bo
 	// X.s[X.pos:] for a scanner X: the position never leaves [0, len(s)] (every store to it is checked)
 	if x.High == nil && x.Low != nil {
 		if lo, ok := ast.Unparen(x.Low).(*ast.SelectorExpr); ok && selName(lo) == "pos" {
-			if tx, ok := ast.Unparen(x.X).(*ast.SelectorExpr); ok && sameExpr(info, tx.X, lo.X) {
+			if c.p.scannerTextOf(x.X, lo.X) {
 				if t := info.TypeOf(lo.X); t != nil && strings.HasSuffix(strings.TrimPrefix(TypeStr(t), "*"), "parser.scanner") {
 					if ok, _ := c.p.scannerPosInvariant(); ok {
 						return true, "I-scanpos: the scanner position stays within [0, len(text)] (every store to it is a decoded rune's width, a saved position, the end of the text, or the position of a found byte)"
@@ -998,6 +998,12 @@ func (p *Program) scannerPosInvariant() (bool, string) {
 			if sel, ok := ast.Unparen(call.Args[0]).(*ast.SelectorExpr); ok && selName(sel) == "s" && isScanner(sel.X) {
 				return true
 			}
+			// len(query) where the scanner the position is stored to was built over query
+			if cc, ok := at.(*ast.CallExpr); ok {
+				if fs, ok := ast.Unparen(cc.Fun).(*ast.SelectorExpr); ok && isScanner(fs.X) && p.scannerTextOf(call.Args[0], fs.X) {
+					return true
+				}
+			}
 		}
 		// sums: flatten
 		var terms []ast.Expr
@@ -1037,7 +1043,7 @@ func (p *Program) scannerPosInvariant() (bool, string) {
 					return false
 				}
 				sl, ok := ast.Unparen(d.Args[0]).(*ast.SliceExpr)
-				if !ok || sl.High != nil || !isPosOf(sl.Low) {
+				if !ok || sl.High != nil || !isPosOf(sl.Low) || !p.scannerTextOf(sl.X, ast.Unparen(sl.Low).(*ast.SelectorExpr).X) {
 					return false
 				}
 				maxK = 1
@@ -1165,4 +1171,49 @@ func (p *Program) scannerPosInvariant() (bool, string) {
 	}
 	p.scanPosOK, p.scanPosWhy = ok, why
 	return ok, why
+}
+
+// scannerTextOf: x denotes the text scanner sc works on - sc.s itself, or the variable the scanner's text field was
+// initialised with when sc was built in this function (s := &scanner{s: query}), provided neither that variable nor
+// the field is ever assigned afterwards.
+func (p *Program) scannerTextOf(x, sc ast.Expr) bool {
+	info := p.Info
+	x = ast.Unparen(x)
+	if sel, ok := x.(*ast.SelectorExpr); ok {
+		return selName(sel) == "s" && sameExpr(info, sel.X, sc)
+	}
+	v, isVar := objOf(info, x).(*types.Var)
+	so := objOf(info, sc)
+	if !isVar || so == nil || !p.neverReassigned(v) || !p.neverReassigned(so) {
+		return false
+	}
+	def := ast.Unparen(p.DefExpr(sc))
+	if u, ok := def.(*ast.UnaryExpr); ok && u.Op == token.AND {
+		def = ast.Unparen(u.X)
+	}
+	cl, ok := def.(*ast.CompositeLit)
+	if !ok {
+		return false
+	}
+	init := litField(info, cl, "s")
+	if init == nil || objOf(info, init) != types.Object(v) {
+		return false
+	}
+	// the text field is only ever set when a scanner is built
+	stored := false
+	for _, fd := range AllFuncs(p.Parser) {
+		ast.Inspect(fd.Body, func(n ast.Node) bool {
+			if as, ok := n.(*ast.AssignStmt); ok {
+				for _, l := range as.Lhs {
+					if sel, ok := ast.Unparen(l).(*ast.SelectorExpr); ok && selName(sel) == "s" {
+						if t := info.TypeOf(sel.X); t != nil && strings.HasSuffix(strings.TrimPrefix(TypeStr(t), "*"), "parser.scanner") {
+							stored = true
+						}
+					}
+				}
+			}
+			return true
+		})
+	}
+	return !stored
 }
